@@ -541,8 +541,17 @@ func (cs *Contracts) parseFile(file, src string) {
 			}
 			cur = nil
 		case "folded_elems":
-			for _, f := range strings.Fields(rest) {
+			// folded_elems T.f .. [also Cxx ..]
+			fl := rest
+			var also []string
+			if j := strings.Index(rest, " also "); j > 0 {
+				fl, also = rest[:j], strings.Fields(rest[j+6:])
+			}
+			for _, f := range strings.Fields(fl) {
 				cs.FoldedElems[f] = true
+				if len(also) > 0 {
+					cs.FoldedKeyProps["elems:"+f] = also
+				}
 			}
 			cur = nil
 		case "folded":
